@@ -157,6 +157,9 @@ class Task:
         self.thread = threading.Thread(target=self._body, name="sim-" + name, daemon=True)
         self.started = False
         self.prio = 0
+        self.spin_mark = -1.0
+        self.spin_n = 0
+        self.spun = False
 
     def _body(self):
         sim = self.sim
@@ -240,6 +243,12 @@ class Sim:
         self.faults = {}
         self.probes = {}
         self.preempt_at = set()
+        self.fine_interleave = 0     # n > 0: after every tick switch with probability 1/n
+        self.spin_limit = 2000
+        self.spin_cost = 0.02
+        self.spin_log = []
+        self.on_spin = None
+        self.pid_max = None          # set to make pid numbers wrap around and be reused
         self.tickn = 0
         self.fs_fail = None          # callable(op, path) -> errno or None
         self.sys_fail = None         # callable(proc, op) -> errno or None
@@ -272,9 +281,23 @@ class Sim:
         return self.epoch + self.now
 
     # ---------------------------------------------------------------- tasks / scheduler
+    def alloc_pid(self):
+        """Sequential pids; with pid_max set they wrap around and numbers of processes that are gone are reused."""
+        for _ in range(100000):
+            pid = self.next_pid
+            self.next_pid += 1
+            if self.pid_max is not None and self.next_pid > self.pid_max:
+                self.next_pid = 101
+                self.probe("pid_wrapped")
+            old = self.procs.get(pid)
+            if old is None or old.state == "gone":
+                if old is not None:
+                    self.probe("pid_recycled")
+                return pid
+        raise HarnessError("no free pid")
+
     def spawn_proc(self, fn, name, ppid=1, environ=None, uid=0, gid=0):
-        pid = self.next_pid
-        self.next_pid += 1
+        pid = self.alloc_pid()
         p = Proc(pid, ppid, name)
         p.environ = dict(environ or {})
         p.ruid = p.euid = p.suid = uid
@@ -458,6 +481,20 @@ class Sim:
             raise SimKilled()
         t.ticks += 1
         self.tickn += 1
+        # a loop that never blocks burns CPU: computation takes time.  After spin_limit system calls without a blocking
+        # call at one simulated instant the task is charged spin_cost seconds (and the event is recorded)
+        if t.spin_mark != self.now:
+            t.spin_mark = self.now
+            t.spin_n = 0
+        t.spin_n += 1
+        if t.spin_n > (self.spin_limit if not t.spun else 50):
+            t.spin_n = 0
+            t.spun = True
+            self.spin_log.append((t.name, self.now))
+            self.probes["cpu_spin_throttled"] = self.probes.get("cpu_spin_throttled", 0) + 1
+            if self.on_spin is not None:
+                self.on_spin(t)
+            self.block(lambda: False, self.spin_cost if t.spin_n == 0 and not t.spun else 0.05, False, False)
         hooks = t.tick_hooks
         if hooks:
             fn = hooks.pop(t.ticks, None)
@@ -465,6 +502,10 @@ class Sim:
                 fn()
         if self.tickn in self.preempt_at:
             self.fault("forced_preemption")
+            self.yield_now()
+        elif self.fine_interleave and self.choices.coin(1, self.fine_interleave, "fine"):
+            # fine-grained mode (a fraction of the runs): any simulated system call may be followed by a switch
+            self.fault("fine_interleave_switch")
             self.yield_now()
         if t.is_main and t.proc.pending:
             self.deliver_signals(t)
@@ -631,8 +672,7 @@ class Sim:
         self._close_entry(p, fd)
 
     def fork_proc(self, parent, name):
-        pid = self.next_pid
-        self.next_pid += 1
+        pid = self.alloc_pid()
         c = Proc(pid, parent.pid, name)
         for fd, e in parent.fds.items():
             c.fds[fd] = FdEntry(e.ofd, e.cloexec)
